@@ -23,6 +23,14 @@ def one(pid):
         res = {"property": pid, "error": p.stdout[-500:]}
     res["seedtest_exit"] = p.returncode
     rp = os.path.join(V, "seeded", pid, "result.json")
+    if os.path.exists(rp):       # manual annotations survive re-runs
+        try:
+            for key in ("caught_by_other_check", "note"):
+                v = json.load(open(rp)).get(key)
+                if v and key not in res:
+                    res[key] = v
+        except Exception:
+            pass
     if "baseline_with_change" not in res and os.path.exists(rp):      # --skip-baseline: keep the earlier baseline verdict
         try:
             old = json.load(open(rp))
